@@ -36,11 +36,11 @@ def evaluate(builder, impl, sides, model, ignore_model=()):
             elif isinstance(e, tuple) and e[0] == "same":
                 if a != impl[e[1]]: return (k, "oracle", "%r answered %r but the equivalent query (line %d: %r) answered %r" % (l, a, e[1], ins[e[1]], impl[e[1]]))
             elif callable(e):
-                try: msg = e(a, env, impl) if e.__code__.co_argcount >= 3 else e(a, env)
+                try: msg = e(a, env, impl) if (e.__code__.co_argcount - len(e.__defaults__ or ())) >= 3 else e(a, env)
                 except Exception as ex: msg = "oracle could not evaluate %r: %r" % (a, ex)
                 if msg: return (k, "oracle", "%r: %s" % (l, msg))
         op = l.split()[0]
-        if op in ignore_model or b == "unsupported": continue
+        if op in ignore_model or b == "unsupported" or getattr(builder, "no_model", False): continue
         if not core.lines_agree(a, b):
             return (k, "correspondence", "%r: implementation %r, model %r" % (l, a, b))
     return None
@@ -93,7 +93,7 @@ def run_sketch_property(pid, tier, seed, builders, rule, nontrivial=None, truste
     return rep.finish()
 
 def learn_specs(pid, specs):
-    """Phase 0: ask the implementation for the facts of each mapping spec (range, reported accuracy)."""
+    """Phase 0: ask the implementation for the facts of each mapping spec (range, reported accuracy, index range)."""
     specs = sorted(set(specs)); lines = []
     for i, s in enumerate(specs): lines.append("mnew m%d %s" % (i, s))
     c, impl, sides, model = core.run_cases(pid, "specs", [Case("specs", lines)])[0]
@@ -104,6 +104,17 @@ def learn_specs(pid, specs):
                 f = dict(y.split("=") for y in x.split()[2:])
                 if "xnan" in f.values(): continue
                 out[s] = {"min": h2f(f["min"][1:]), "max": h2f(f["max"][1:]), "acc": h2f(f["acc"][1:]), "gamma": h2f(f["gamma"][1:]), "off": h2f(f["off"][1:]), "kind": f["kind"]}
+    lines = []
+    for i, s in enumerate(specs):
+        if s in out: lines += ["mnew m%d %s" % (i, s), "midx m%d %s" % (i, core.f2h(out[s]["min"])), "midx m%d %s" % (i, core.f2h(out[s]["max"]))]
+    if lines:
+        c, impl, sides, model = core.run_cases(pid, "specs2", [Case("specs2", lines)])[0]
+        k = 0
+        for s in specs:
+            if s in out:
+                try: out[s]["imin"], out[s]["imax"] = int(impl[k + 1]), int(impl[k + 2])
+                except ValueError: out[s]["imin"], out[s]["imax"] = -100, 100
+                k += 3
     return out
 
 def learn_edges(pid, facts, rng, per_spec=8, lo=1e-3, hi=1e3):
